@@ -81,6 +81,17 @@ def check(prop):
         res["error"] = "forbidden declarations: " + "; ".join(bad[:10])
         return res
     files = cone_files(prop_file)
+    if count_qed(files) == 0:
+        # coqdep could not be run or answered with paths we cannot read: fall back to the generated
+        # files being in place first, then to the whole development
+        try:
+            with build.Lock():
+                build.generate()
+        except build.BuildError:
+            pass
+        files = cone_files(prop_file)
+        if count_qed(files) == 0:
+            files = sorted(os.path.relpath(os.path.join(r, f), COQ) for r, _, fs in os.walk(COQ) for f in fs if f.endswith(".v"))
     res["obligations"] = count_qed(files)
     res["cone"] = files
     try:
